@@ -153,6 +153,16 @@ def _worker(item):
                         eb.append(('header', i))
                 if len(e.trace) != nt or len(e.header) != nt:
                     eb.append(('len', len(e.trace)))
+                # slices of the trace / header accessors, as Python slices of range(nt) (what segyio does on the source)
+                for sl in (slice(None, None, -1), slice(nt - 1, None, -3), slice(1, nt - 1, 2), slice(min(5, nt - 1), min(4, nt - 2), -1), slice(None, 3),
+                           slice(-2, None), slice(2, 2), slice(nt - 1, 0, -1)):
+                    want = list(range(nt))[sl]
+                    got = [np.array(x, copy=True) for x in e.trace[sl]]
+                    if len(got) != len(want) or any(not codec.same_bits(g, ideal[w]) for g, w in zip(got, want)):
+                        eb.append(('trace-slice', str(sl)))
+                    goth = [dict(x) for x in e.header[sl]]
+                    if len(goth) != len(want) or any([int(g[segyio.TraceField(k)]) for k in keys] != truth[w] for g, w in zip(goth, want)):
+                        eb.append(('header-slice', str(sl)))
                 for acc in ('iline', 'xline', 'depth_slice'):
                     try:
                         getattr(e, acc)[0]
